@@ -302,6 +302,9 @@ func (bd *Builder) Add(blockSpec BlockSpec) (*Block, error) {
 		b.TxBySpec = make([]int, len(bs.Tx))
 		for ti, t := range bs.Tx {
 			b.TxBySpec[ti] = -1
+			if t.Skip {
+				continue
+			}
 			min := t.Minute
 			if min < lastMin {
 				min = lastMin // entries are ordered by minute inside an entry block
